@@ -3,20 +3,52 @@
     [TB "CLOSE"; TI c]                        -> []
     [TB "SLEEP"; TI ms]                       -> []
     [TB "CMD"; TI c; TI t; request frame; (oracle frame)] -> canonical reply frame *)
-From Ferrous Require Import Base.Bytes Model.Resp Model.Types Model.Server Model.RunBase.
+From Ferrous Require Import Base.Bytes Model.Resp Model.Types Model.Server Model.Conn Model.RunBase.
 Open Scope Z_scope.
+
+(** replies inside an EXEC array are canonicalised by the queued command's name *)
+Fixpoint canon_zip (q : list (list frame)) (l : list frame) : list frame :=
+  match q, l with
+  | parts :: q', x :: l' => canon_reply (req_name (FArray parts)) x :: canon_zip q' l'
+  | _, _ => l
+  end.
+Definition canon_exec (s : server) (c : Z) (name : bytes) (r : frame) : frame :=
+  if beq name (bs "EXEC") then
+    match r, zlookup c (s_conns s) with
+    | FArray l, Some cn => if len l =? len (c_queue cn) then canon_reply name (FArray (canon_zip (c_queue cn) l))
+                           else canon_reply name r
+    | _, _ => canon_reply name r
+    end
+  else canon_reply name r.
+
+(** a full sweeper pass: every database, collect then delete at the same instant *)
+Definition sweep_db_at (now : Z) (dt : db * tracker) : db * tracker :=
+  sweep_delete now (fst dt) (snd dt) (sweep_collect now (fst dt)).
+Definition sweep_all (now : Z) (s : server) : server :=
+  let dts := map (sweep_db_at now) (combine (s_dbs s) (s_trk s)) in
+  {| s_dbs := map fst dts; s_trk := map snd dts; s_conns := s_conns s;
+     s_password := s_password s; s_aof := s_aof s |}.
+
+Definition conn_buf (c : Z) (bufs : unit) : bytes := [].
+Definition bufs : unit := tt.
 
 Definition srv_op (s : server) (op : list tok) : list tok * server :=
   match op with
   | TB name :: rest =>
-      if beq name (bs "CONN") then
+      if beq name (bs "SERVER") then
+        (* [TB "SERVER"; TB password ("" = none)]: (re)start with this configuration *)
         match rest with
-        | TI c :: _ => ([TI 1], set_conn s c new_conn)
+        | TB pw :: _ => ([], init_server (match pw with [] => None | _ => Some pw end))
+        | _ => ([TB (bs "BADOP")], s)
+        end
+      else if beq name (bs "CONN") then
+        match rest with
+        | TI c :: _ => ([TI 1], connect s c)
         | _ => ([TB (bs "BADOP")], s)
         end
       else if beq name (bs "CLOSE") then
         match rest with
-        | TI c :: _ => ([], {| s_dbs := s_dbs s; s_conns := zremove c (s_conns s) |})
+        | TI c :: _ => ([], del_conn s c)
         | _ => ([TB (bs "BADOP")], s)
         end
       else if beq name (bs "SLEEP") then ([], s)
@@ -27,10 +59,39 @@ Definition srv_op (s : server) (op : list tok) : list tok * server :=
             | Some (req, ft') =>
                 let oracle := match dec_frame (S (length ft')) ft' with
                               | Some (o, _) => Some o | None => None end in
-                match process_frame t s c req oracle with
-                | (r, s') => (enc_frame (canon_reply (req_name req) r), s')
+                match zlookup c (s_conns s) with
+                | None => ([TB (bs "CLOSED")], s)
+                | Some _ =>
+                    match process_frame t s c req oracle with
+                    | (r, s') => (enc_frame (canon_exec s c (req_name req) r),
+                                  if is_quit req then del_conn s' c else s')
+                    end
                 end
             | None => ([TB (bs "BADFRAME")], s)
+            end
+        | _ => ([TB (bs "BADOP")], s)
+        end
+      else if beq name (bs "SWEEP") then
+        (* one full sweeper pass at model time t over all databases *)
+        match rest with
+        | TI t :: _ => ([], sweep_all t s)
+        | _ => ([TB (bs "BADOP")], s)
+        end
+      else if beq name (bs "RAW") then
+        (* [TB "RAW"; TI c; TI t; chunks...] -> [TI closed; canonical reply frames...] *)
+        match rest with
+        | TI c :: TI t :: chunks =>
+            match zlookup c (s_conns s) with
+            | None => ([TB (bs "CLOSED")], s)
+            | Some _ =>
+                match conn_feed t s c (conn_buf c bufs) (dec_chunks chunks) [] with
+                | (out, buf', s', closed) =>
+                    match decode_out out with
+                    | (fs, st) =>
+                        (TI (if closed then 1 else 0) :: enc_frames (map canon fs)
+                           ++ (match st with Failed => [TB (bs "GARBAGE")] | NeedMore => [] end), s')
+                    end
+                end
             end
         | _ => ([TB (bs "BADOP")], s)
         end
@@ -38,9 +99,25 @@ Definition srv_op (s : server) (op : list tok) : list tok * server :=
   | _ => ([TB (bs "BADOP")], s)
   end.
 
-Fixpoint srv_ops (s : server) (ops : list (list tok)) : list (list tok) :=
+(** the sweeper stopped between its collect phase and its delete phase (gate hook):
+    [SWEEP_GATE t] collects at time t, client commands run, [SWEEP_RELEASE t'] deletes at t' *)
+Definition srv_op2 (sp : server * list (list bytes)) (op : list tok) : list tok * (server * list (list bytes)) :=
+  let (s, pend) := sp in
+  match op with
+  | TB name :: TI t :: _ =>
+      if beq name (bs "SWEEP_GATE") then ([], (s, map (sweep_collect t) (s_dbs s)))
+      else if beq name (bs "SWEEP_RELEASE") then
+        let dts := map (fun x => match x with (d, tr, ks) => sweep_delete t d tr ks end)
+                       (combine (combine (s_dbs s) (s_trk s)) pend) in
+        ([], ({| s_dbs := map fst dts; s_trk := map snd dts; s_conns := s_conns s;
+                 s_password := s_password s; s_aof := s_aof s |}, []))
+      else match srv_op s op with (o, s') => (o, (s', pend)) end
+  | _ => match srv_op s op with (o, s') => (o, (s', pend)) end
+  end.
+
+Fixpoint srv_ops (sp : server * list (list bytes)) (ops : list (list tok)) : list (list tok) :=
   match ops with
   | [] => []
-  | op :: r => match srv_op s op with (o, s') => o :: srv_ops s' r end
+  | op :: r => match srv_op2 sp op with (o, sp') => o :: srv_ops sp' r end
   end.
-Definition run_srv (ops : list (list tok)) : list (list tok) := srv_ops init_server ops.
+Definition run_srv (ops : list (list tok)) : list (list tok) := srv_ops (init_server None, []) ops.
